@@ -179,6 +179,10 @@ func (ssc *defaultStatefulSetControl) AdoptOrphanRevisions(
 	set *apps.StatefulSet,
 	revisions []*kubeapps.ControllerRevision) error {
 	for i := range revisions {
+		// the caller passes everything it listed; what is already controlled needs no adoption
+		if metav1.GetControllerOfNoCopy(revisions[i]) != nil {
+			continue
+		}
 		adopted, err := ssc.adoptControllerRevision(set, controllerKind, revisions[i])
 		if err != nil {
 			return err
